@@ -1,8 +1,10 @@
 #!/bin/bash
 # usage: tools/regress_seeds.sh [out-file]   re-applies every archived seeded change to /repo (one at a time, restored
 # afterwards) and runs the quick tier of every check recorded as catching it; prints one line per (change, check).
+# env: SEEDS="name1 name2 ..." restricts the run to those directories; FIRST_ONLY=1 runs only the first recorded check
 OUT=${1:-/tmp/regress_seeds.log}; : > $OUT
 for d in /verif/seeded/C*/; do
+  [ -n "${SEEDS:-}" ] && ! echo " $SEEDS " | grep -q " $(basename $d) " && continue
   name=$(basename $d)
   ids=$(python3 - "$d" <<'PY'
 import json,sys
@@ -12,6 +14,7 @@ print(' '.join(c['caught_by']) if 'caught_by' in c else ' '.join(k for k,v in c.
 PY
 )
   [ -z "$ids" ] && continue
+  [ -n "${FIRST_ONLY:-}" ] && ids=$(echo $ids | cut -d" " -f1)
   /verif/tools/try_seed.sh $d/patch.diff $ids 2>&1 | sed "s|^|$name |" | cut -c1-220 >> $OUT
 done
 echo "missed: $(grep -c ' rc=0' $OUT)  caught: $(grep -c ' rc=1' $OUT)  other: $(grep -vc ' rc=[01]' $OUT)" >> $OUT
